@@ -1,6 +1,7 @@
 """C12 — an empty query lists the top-rated records."""
 from . import r_rank as RR
 from . import r_state as RS
+from . import C20 as RC20
 from .common import info
 
 
@@ -16,6 +17,7 @@ def run(ctx):
     RS.consistency_group(ctx, "R12.d")
     RR.priorities(ctx, "R12.e", "R12.e")
     RR.directions(ctx, "R12.e", comps)
+    RC20.buffer_rules(ctx, None, None, "R20.f")
     return info("R12.a: the empty-query selection orders by exactly (rating desc, normalised title asc); R12.b: bounded by "
                 "self.limit with the R06.a selection rules; R12.c: the non-index branch is taken iff the query has no word, an "
                 "empty query passes the filter first, positions map to records; R12.d: the memoised ranking is coherent (R10.a/b); "
